@@ -7,7 +7,7 @@ import types
 import z3
 
 from sx import models
-from sx.core import Inconclusive, PathAbort, Unmodelled, ctx, explore  # noqa: F401
+from sx.core import Inconclusive, PathAbort, StopExploration, Unmodelled, ctx, explore  # noqa: F401
 from sx.models import SymMatch  # noqa: F401
 from sx.terms import *  # noqa: F401,F403
 from sx.values import *  # noqa: F401,F403
